@@ -402,7 +402,7 @@ class Padding(WidgetDecoration[WrappedWidget], typing.Generic[WrappedWidget]):
     def keypress(self, size: tuple[()] | tuple[int] | tuple[int, int], key: str) -> str | None:
         """Pass keypress to self._original_widget."""
         left, right = self.padding_values(size, True)
-        if size:
+        if size and self._width_type != WHSettings.CLIP:
             maxvals = (size[0] - left - right,) + size[1:]
             return self._original_widget.keypress(maxvals, key)
         return self._original_widget.keypress((), key)
@@ -413,7 +413,7 @@ class Padding(WidgetDecoration[WrappedWidget], typing.Generic[WrappedWidget]):
             return None
 
         left, right = self.padding_values(size, True)
-        if size:
+        if size and self._width_type != WHSettings.CLIP:
             maxvals = (size[0] - left - right,) + size[1:]
             if maxvals[0] == 0:
                 return None
@@ -446,6 +446,8 @@ class Padding(WidgetDecoration[WrappedWidget], typing.Generic[WrappedWidget]):
         else:
             maxcol = self.pack((), True)[0]
             maxvals = ()
+        if self._width_type == WHSettings.CLIP:
+            maxvals = ()
 
         if isinstance(x, int):
             if x < left:
@@ -477,6 +479,8 @@ class Padding(WidgetDecoration[WrappedWidget], typing.Generic[WrappedWidget]):
             maxvals = (maxcol - left - right,) + size[1:]
         else:
             maxvals = ()
+        if self._width_type == WHSettings.CLIP:
+            maxvals = ()
 
         return self._original_widget.mouse_event(maxvals, event, button, col - left, row, focus)
 
@@ -486,7 +490,7 @@ class Padding(WidgetDecoration[WrappedWidget], typing.Generic[WrappedWidget]):
             return None
 
         left, right = self.padding_values(size, True)
-        if size:
+        if size and self._width_type != WHSettings.CLIP:
             maxvals = (size[0] - left - right,) + size[1:]
         else:
             maxvals = ()
